@@ -20,7 +20,7 @@ RULE = (
 )
 TIERS = {"quick": {"shards": 8, "n": 2500, "budget_s": 200}, "thorough": {"shards": 16, "n": 20000, "budget_s": 2700}}
 FLOOR = {"quick": 1000, "thorough": 30000}
-REQUIRED_LABELS = {"quick": ["class-merge", "explicit-function_type", "src:docstring", "src:function-handshaped", "src:emitted", "src:text", "star-args", "live:function", "live:class"], "thorough": []}
+REQUIRED_LABELS = {"quick": ["class-merge", "explicit-function_type", "src:docstring", "src:function-handshaped", "src:emitted", "src:text", "star-args", "live:function", "live:class", "json:$ref", "json:anyOf", "json:nullable", "json:items"], "thorough": []}
 ASSUMPTIONS = ["on ill-formed text (not derivable from the section grammar) the clauses 'name non-empty' and 'typ parses' are relaxed (P30); all other shape clauses stay"]
 TOK = [":param ", ":type ", ":return: ", ":rtype: ", ":cvar ", "Args:\n", "Returns:\n", "Raises:\n", "Kwargs:\n", "Parameters\n----------\n", "Returns\n-------\n", "alpha", "beta_x", "*args", "**kwargs", "(int)", " (str, optional)", "```int```", "```", ":", "\n", "  ", "    ", "Defaults to 5", "Defaults to ", ".", " or ", "int", "Optional[str]", " : ", "the value"]
 
@@ -89,7 +89,33 @@ def shape(ir, allow_empty_name=False, allow_bad_typ=False, allow_none_key=False)
 # ---------------------------------------------------------------------------------------------- case kinds
 @st.composite
 def case_strategy(draw):
-    kind = draw(st.sampled_from(["docstring", "docstring", "function", "function", "emitted", "emitted", "text", "class-merge", "live"]))
+    kind = draw(st.sampled_from(["docstring", "docstring", "function", "function", "emitted", "emitted", "text", "class-merge", "live", "json-handshaped"]))
+    if kind == "json-handshaped":
+        # JSON-schemas as people write them (not only as cdd emits them): $ref, anyOf, nullable, format, arrays,
+        # properties without type or description, `required` any subset
+        n = draw(st.integers(0, 5))
+        ns = draw(st.lists(gen_ir.names, min_size=n, max_size=n, unique=True))
+        T = st.sampled_from(["string", "integer", "number", "boolean", "object", "array"])
+        prop = st.one_of(
+            st.builds(lambda t, d: {"type": t, "description": d}, T, gen_ir.descr),
+            st.builds(lambda t: {"type": t}, T),
+            st.builds(lambda d: {"description": d}, gen_ir.descr),
+            st.just({}),
+            st.builds(lambda ms, d: {"type": "string", "pattern": "|".join(ms), "description": d}, st.lists(gen_ir.lit_member, min_size=1, max_size=3, unique=True), gen_ir.descr),
+            st.builds(lambda r: {"$ref": r}, st.sampled_from(["#/components/schemas/Other", "#/$defs/other.Thing", "Other"])),
+            st.builds(lambda a, b: {"anyOf": [a, b]}, st.sampled_from([{"type": "string"}, {"type": "integer"}, {"$ref": "#/components/schemas/Other"}]), st.sampled_from([{"type": "string"}, {"type": "number"}, {"$ref": "#/components/schemas/Thing"}])),
+            st.builds(lambda t, dflt: {"type": t, "nullable": True, "default": dflt}, T, st.sampled_from([None, 0, "x"])),
+            st.just({"type": "string", "format": "date-time"}),
+            st.builds(lambda t: {"type": "array", "items": {"type": t}}, T),
+            st.builds(lambda d: {"type": "integer", "default": d, "description": "the value"}, st.integers(-5, 5)),
+        )
+        props = {a: draw(prop) for a in ns}
+        sch = {"$id": "https://x/%s.schema.json" % "foo", "type": "object", "properties": props}
+        if draw(st.booleans()):
+            sch["description"] = draw(gen_ir.descr)
+        if draw(st.booleans()):
+            sch["required"] = draw(st.lists(st.sampled_from(ns), unique=True)) if ns else []
+        return {"kind": "json-handshaped", "schema": sch}
     if kind == "live":
         # a live (imported) function or class object: the `inspect`-based entry of the function / class parsers
         if draw(st.booleans()):
@@ -216,7 +242,9 @@ def oracle(case):
             return r
     try:
         with core.quiet():
-            if kind == "live":
+            if kind == "json-handshaped":
+                ir = cdd.json_schema.parse.json_schema(json.loads(json.dumps(case["schema"])))
+            elif kind == "live":
                 obj = getattr(mod, top.name)
                 if isinstance(obj, (staticmethod, classmethod)):
                     obj = obj.__func__
@@ -272,6 +300,15 @@ def oracle(case):
             errs = [e for e in errs if not e.startswith("name-star")]
         if case["star"]:
             r.label("star-args")
+    elif kind == "json-handshaped":
+        errs = shape(ir)
+        want = list(case["schema"]["properties"])
+        if list(ir["params"]) != want:
+            errs.append("names:%s->%s" % (want, list(ir["params"])))
+        for p in case["schema"]["properties"].values():
+            for k in ("$ref", "anyOf", "nullable", "format", "items", "pattern"):
+                if k in p:
+                    r.label("json:" + k)
     elif kind == "live":
         errs = shape(ir)
         r.label("live:" + case["obj"])
